@@ -939,7 +939,7 @@ def run(ck: core.Check):
         progs = list(cp.gen_exhaustive(pmax, rng, set2))
         pstats["exhaustive_up_to_commands"], pstats["exhaustive"] = pmax, len(progs)
         progs = [cp.instrument(p_) for p_ in progs]
-        progs += [cp.gen_random(rng, rng.randrange(2, 16), set2) for _ in range(ck.pick(500, 6000))]
+        progs += [cp.gen_random(rng, rng.randrange(2, 16), set2) for _ in range(ck.pick(300, 6000))]
         pinits = [[rng.randrange(4), rng.randrange(3), rng.randrange(5)] for _ in progs]
         try:
             pmodel = ck.driver().ask_many("C16", [{"init": i, "prog": cp.strip(p_)} for p_, i in zip(progs, pinits)])
@@ -966,11 +966,22 @@ def run(ck: core.Check):
             if pstats["programs"] % 400 == 1:
                 ck.sample({"init": init, "prog": cp.strip(prog), "real_final": final, "real_log": log[:6], "raised": raised}, 3)
             for mgr, kind, rec in cp.oracle(records):
+                key_ = f"{mgr}:{kind}"
+                cprog_ = prog
+                if not any(x["key"] == key_ for x in ck.failures):
+                    try:  # first witness of this kind: shrink it (the failure is re-judged on every candidate)
+                        small_ = cp.shrink(env, prog, init, key_)
+                        _, _, _, recs_ = cp.run_real(env, small_, init)
+                        hit_ = [r_ for m_, k_, r_ in cp.oracle(recs_) if f"{m_}:{k_}" == key_]
+                        if hit_:
+                            cprog_, rec = small_, hit_[0]
+                    except Exception:  # noqa: BLE001
+                        pass
                 ck.failure(f"{mgr}:{kind}",
-                           f"{mgr}: settings before block {rec['pre']}, after {rec['post']} (inside {rec['inside']}; "
+                           f"{mgr}: settings before block {rec['pre']}, after {rec['post']} (on entering the body {rec['inside']}, at its end {rec.get('end')}; "
                            f"block over {MANAGERS[rec['which']]}={rec['arg']}, setter calls while open "
                            f"{[b_ - a_ for a_, b_ in zip(rec['pokes_pre'], rec['pokes_post'])]})",
-                           {"init": init, "prog": prog})
+                           {"init": init, "prog": cprog_})
             if m is not None and -1 not in final:
                 if "error" in m or m["glob"] != final or m["log"] != log or m["raised"] != raised:
                     pstats["mismatches"] += 1
